@@ -51,7 +51,7 @@ def _c05(name):
         t.assume(M1, M2)
         t.trusted.add("meaning of DOM / COV at the true means: instances of the C09 / C10 specifications (proved in this file's meaning lemma for rectangles)")
         t.must_fail()
-        t.prove("J2:an_eps_isolated_active_design_survives_discarding", z3.Implies(disc, J2(S1, P0)))
+        t.prove("J2:an_eps_isolated_active_design_survives_discarding", z3.Implies(disc, J2(S1, P0)), timeout_ms=90000)
         # --- epsiloncovering (contract C03)
         S2, P2 = z3.Consts("S2 P2", SM.SETSORT)
         new = sp.new(S0, [S0, P0], REG, sl)
